@@ -49,3 +49,58 @@ Proof.
     { cbn [map]. rewrite map_app. reflexivity. }
     rewrite Hshape. exists info, res. repeat split; assumption.
 Qed.
+
+(** ** a delivery that fits one frame *)
+Lemma step_only s d t f x :
+  r_waiting s = true -> r_queue s = [] -> r_inc s = None -> 1 <= r_credit s ->
+  x_did x = Some d -> x_tag x = Some t -> x_fmt x = Some f -> x_aborted x = false -> x_more x = false ->
+  exists info r,
+    snd (rstep s (EXfer x)) = [r] /\
+    (r = ORecv info (Some f) (x_pay x) \/ r = ORecvErr EIllegalRsm) /\
+    d_id info = d /\ d_tag info = t /\
+    r_inc (fst (rstep s (EXfer x))) = None /\
+    r_credit (fst (rstep s (EXfer x))) = r_credit s - 1 /\ r_dc (fst (rstep s (EXfer x))) = wadd (r_dc s) 1.
+Proof.
+  intros Hw Hq Hi Hcr Hd Ht Hf Hab Hm.
+  cbn [rstep]. unfold fuel_of. cbn [r_queue length]. rewrite Hq. cbn [app length].
+  rewrite (pump_one _ x) by (cbn; auto).
+  cbn [r_mode r_second r_credit r_dc r_drain r_processed r_inc r_waiting r_held r_unsettled r_reg].
+  unfold process. cbn [r_inc]. rewrite Hab, Hm, Hi.
+  unfold complete, start.
+  cbn [set_inc r_credit r_mode r_second r_dc r_drain r_processed r_inc r_queue r_waiting r_held r_unsettled r_reg i_did i_tag i_settled i_fmt i_buf i_rsm].
+  destruct (r_credit s <? 1) eqn:E; [lia|].
+  rewrite Hd, Ht, Hf.
+  destruct (match x_settled x with Some true => true | _ => false end).
+  - exists (mkD d t None). eexists. cbn [fst snd stop_waiting r_inc r_waiting r_queue r_credit r_dc].
+    split; [reflexivity|]. split; [left; reflexivity|]. repeat split; reflexivity.
+  - destruct (negb (r_second s) && match x_rsm x with Some true => true | _ => false end).
+    + exists (mkD d t None). eexists. cbn [fst snd stop_waiting r_inc r_waiting r_queue r_credit r_dc].
+      split; [reflexivity|]. split; [right; reflexivity|]. repeat split; reflexivity.
+    + exists (mkD d t (x_rsm x)). eexists. cbn [fst snd stop_waiting r_inc r_waiting r_queue r_credit r_dc].
+      split; [reflexivity|]. split; [left; reflexivity|]. repeat split; reflexivity.
+Qed.
+
+Theorem wire_to_delivery_single :
+  forall m ch h d tb f st rs b payload p chunks fuel s,
+    let vs := [h; VUint d; VBinary tb; VUint f; VNull; VBool false; VNull; st; rs; VBool false; b] in
+    ch < 65536 -> fields_ok (s_fields transfer_schema) vs = true ->
+    Forall (fun v => (depth v <= fuel)%nat) vs -> (1 <= fuel)%nat ->
+    transfer_perfs vs = Some p ->
+    transfer_layout m ch p payload chunks ->
+    lenN (p_single p) + lenN payload <= m - 4 ->
+    r_waiting s = true -> r_queue s = [] -> r_inc s = None -> 1 <= r_credit s ->
+    exists fr x,
+      map (dec_frame fuel) chunks = [Ok fr] /\ xfer_of_frame fr = Some x /\
+      exists info res,
+        snd (rstep s (EXfer x)) = [res] /\
+        (res = ORecv info (Some f) payload \/ res = ORecvErr EIllegalRsm) /\
+        d_id info = d /\ d_tag info = from_be tb /\
+        r_inc (fst (rstep s (EXfer x))) = None /\
+        r_credit (fst (rstep s (EXfer x))) = r_credit s - 1 /\ r_dc (fst (rstep s (EXfer x))) = wadd (r_dc s) 1.
+Proof.
+  intros m ch h d tb f st rs b payload p chunks fuel s vs Hch Hok Hd Hf Hp Hl Hs Hw Hq Hi Hc.
+  destruct (transfer_wire_decodes m ch vs p payload chunks fuel Hch Hok Hd Hf Hp Hl) as [Hsingle _].
+  exists {| f_channel := ch; f_body := FPerf transfer_schema vs payload |}, (xfer_of_fields vs payload).
+  split; [exact (Hsingle Hs)|]. split; [reflexivity|].
+  exact (step_only s d (from_be tb) f (xfer_of_fields vs payload) Hw Hq Hi Hc eq_refl eq_refl eq_refl eq_refl eq_refl).
+Qed.
